@@ -72,6 +72,18 @@ RecOK(e, obs, pages, anyInRegion) ==
           /\ (IF anyInRegion THEN IndexOf(f[1], 4) = rix ELSE f[1] \in pages)
           /\ (f[2] = Reach(ent, f[1]) \/ f[2] = Reach(obs, f[1]))
 
+(* C11: flushing a page token = exactly one INVLPG of that page's start address; flushing a
+   flush-all token = reload of CR3 with its current value; nothing is flushed otherwise *)
+FlushOK(e, isOk, pageTok, allTok) ==
+    IF e.flushed = 1 /\ isOk /\ pageTok
+    THEN Len(e.fl) = 1 /\ e.fl[1].m = "invlpg" /\ e.fl[1].a = e.res.page
+    ELSE IF e.flushed = 1 /\ isOk /\ allTok
+    THEN /\ Cardinality({ k \in 1 .. Len(e.fl) : e.fl[k].m = "mov_to_cr" }) = 1
+         /\ \A k \in 1 .. Len(e.fl) :
+               /\ e.fl[k].m \in {"mov_from_cr", "mov_to_cr"} /\ e.fl[k].a = W(3)
+               /\ (e.fl[k].m = "mov_to_cr" => e.fl[k].c = e.cr3)
+    ELSE \A k \in 1 .. Len(e.fl) : e.fl[k].m = "mov_from_cr"      \* (RecursivePageTable::new reads CR3)
+
 Same == [ok |-> TRUE, ent |-> ent, amap |-> amap, free |-> free, lc |-> << >>]
 Fail == [ok |-> FALSE, ent |-> ent, amap |-> amap, free |-> free, lc |-> << >>]
 
@@ -106,13 +118,15 @@ MapStep(e) ==
        THEN (IF e.res.k = "panic" /\ obs = ent /\ e.allocs = << >> THEN Same ELSE Fail)  \* cannot be identity-mapped
        ELSE IF e.how = 2 /\ e.page # e.frame THEN Fail
        ELSE IF good
-       THEN [ok |-> TouchOK(e, obs) /\ e.dealloc = << >> /\ RecOK(e, obs, RecPages(e.page, e.s), FALSE),
+       THEN [ok |-> /\ TouchOK(e, obs) /\ e.dealloc = << >> /\ RecOK(e, obs, RecPages(e.page, e.s), FALSE)
+                    /\ FlushOK(e, e.res.k = "Ok", TRUE, FALSE),
              ent |-> r.m, amap |-> r.am, free |-> free \ Allocated(e), lc |-> << >>]
        ELSE Fail
 
 SimpleStep(e, r, checkFrame) ==
     LET obs == Observed(e)
     IN IF /\ e.res.k \in r.kinds
+          /\ FlushOK(e, e.res.k = "Ok", e.op \in {"unmap", "update"}, e.op = "setflags")
           /\ r.m = obs
           /\ NoAllocNoFree(e)
           /\ (e.res.k = "Ok" => (e.res.page = r.page /\ (checkFrame => e.res.frame = r.frame)))
